@@ -49,7 +49,10 @@ def classify(progs, sched, st=None, obs=None, events=None):
                             add('rmw-window:' + cmd, z3.Or(inp.cas == 0, inp.cas != st.cas[0], z3.Not(st.live(0)), rejected(t, cmd)) if st is not None else inp.cas == 0)
                 # a foreign mutation after this client's store decision but before its insert also breaks the read-modify-write
             # lookup ... foreign mutation ... (no own store: the command failed on stale information)
-            later_foreign = any(sched[k][0] != t and sched[k][1] in MUT_STEPS for k in range(a + 1, n))
+            # only while this command is still running (before its last step) and only if it never stored: a foreign mutation
+            # after the command has completed, or next to a store of its own (handled above), is not this window
+            own_store = [b for b in mine if b > a and sched[b][1] in ('map.insert', 'map.get_mut')]
+            later_foreign = (not own_store) and any(sched[k][0] != t and sched[k][1] in MUT_STEPS for k in range(a + 1, mine[-1]))
             if later_foreign:
                 for cmd, inp in prog:
                     if cmd in ('add', 'replace', 'append', 'prepend', 'increment', 'decrement'):
